@@ -1062,4 +1062,182 @@ Proof.
   - (* ORestart *)
     cbn [fst st ca]. split; auto. destruct cx; [now apply oinv_sinv in I|exact I].
 Qed.
+
+(* a crash discards the cache; the stored part of the invariant stays *)
+Definition fault_safe (fo : fault * op) : Prop := fst fo = NoFault \/ asks_owner (snd fo) = false.
+Definition hist_ok (h : list (fault * op)) : Prop := Forall (fun fo => actor_ok (snd fo) /\ fault_safe fo) h.
+
+Lemma oinv_state_sinv x : oinv_state sm x -> sinv (st x).
+Proof. unfold oinv_state. destruct (ca x); [apply oinv_sinv|auto]. Qed.
+
+Lemma step_f_owner x fo : oinv_state sm x -> actor_ok (snd fo) -> fault_safe fo ->
+  oinv_state sm (fst (step_f dr nr sm x fo)) /\ step_sum (snd fo) (st x) (st (fst (step_f dr nr sm x fo))).
+Proof.
+  intros I AO FS. unfold step_f. destruct (step_owner (fst fo) x (snd fo) I AO FS) as [I1 S1].
+  destruct (step dr nr sm (fst fo) x (snd fo)) as [x1 o1]. cbn [fst] in *.
+  destruct (fst fo); cbn [fst st]; auto. split; [|exact S1]. now apply oinv_state_sinv in I1.
+Qed.
+
+Lemma run_owner h : forall x, oinv_state sm x -> hist_ok h -> oinv_state sm (fst (run dr nr sm x h)).
+Proof.
+  induction h as [|fo h IH]; intros x I H; cbn [run fst]; [exact I|].
+  inversion H as [|? ? [AO FS] H']; subst.
+  destruct (step_f_owner x fo I AO FS) as [I1 _].
+  destruct (step_f dr nr sm x fo) as [x1 o1]. cbn [fst] in I1.
+  specialize (IH x1 I1 H'). destruct (run dr nr sm x1 h) as [x2 os]. exact IH.
+Qed.
+
+Lemma hist_ok_nofault h : Forall (fun fo => actor_ok (snd fo)) h -> Forall (fun fo => fst fo = NoFault) h -> hist_ok h.
+Proof.
+  intros A B. unfold hist_ok. rewrite Forall_forall in *. intros fo Hin. split; [now apply A|left; now apply B].
+Qed.
+
+(* exactly one effective owner, equal to the owner fields, in the store and in the cache *)
+Definition one_owner (x : state) : Prop :=
+  store_owners (st x) = [t_owner (st x)] /\
+  match ca x with Some c => cache_owners c = [c_owner c] /\ c_owner c = t_owner (st x) | None => True end.
+
+Lemma oinv_state_one_owner x : oinv_state sm x -> one_owner x.
+Proof.
+  unfold oinv_state, one_owner. destruct (ca x) as [c|].
+  - intros I. split; [apply sinv_store_owners; now apply oinv_sinv in I|].
+    split; [now apply (oinv_cache_owners sm (st x))|]. now destruct I as [_ [CO _ _ _ _]].
+  - intros I. split; [now apply sinv_store_owners|exact Logic.I].
+Qed.
+
+Lemma run_one_owner s h : sinv s -> hist_ok h -> one_owner (fst (run dr nr sm (mkState s None 0) h)).
+Proof. intros SI H. apply oinv_state_one_owner. apply run_owner; [exact SI|exact H]. Qed.
+
+(* ---------- the step laws, read off the summary ---------- *)
+Definition row_modes (s : store) (u : N) := smode s u.
+
+(* a request by another user leaves the owner's stored row alone, unless it is that user's
+   acceptance of a transfer *)
+Lemma step_owner_kept x fo : oinv_state sm x -> actor_ok (snd fo) -> fault_safe fo ->
+  op_user (snd fo) <> t_owner (st x) ->
+  let x' := fst (step_f dr nr sm x fo) in
+  (smode (st x') (t_owner (st x)) = smode (st x) (t_owner (st x)) /\ t_owner (st x') = t_owner (st x)) \/
+  (asks_op (snd fo) /\ t_owner (st x') = op_user (snd fo) /\
+   exists w g, smode (st x) (op_user (snd fo)) = Some (w, g, false) /\ is_owner g = true /\ is_owner w = false).
+Proof.
+  intros I AO FS NA. cbn zeta. destruct (step_f_owner x fo I AO FS) as [_ SS].
+  destruct SS as [A B|A B C|t T1 T2 A B C|T1 T2 T3 T4 T5 T6].
+  - left. auto.
+  - left. split; [|exact B]. apply A. congruence.
+  - left. split; [|exact B]. apply A. congruence.
+  - right. auto.
+Qed.
+
+(* ownership (the owner field, hence by the invariant the one effective owner) moves only by
+   acceptance: the actor asked for O, held O in the previous grant, becomes the owner, and the
+   previous owner keeps O neither in want nor in given *)
+Lemma step_transfer x fo : oinv_state sm x -> actor_ok (snd fo) -> fault_safe fo ->
+  let x' := fst (step_f dr nr sm x fo) in
+  t_owner (st x') <> t_owner (st x) ->
+  asks_op (snd fo) /\ t_owner (st x') = op_user (snd fo) /\
+  (exists w g, smode (st x) (op_user (snd fo)) = Some (w, g, false) /\ is_owner g = true /\ is_owner w = false) /\
+  (exists w' g', smode (st x') (t_owner (st x)) = Some (w', g', false) /\ is_owner w' = false /\ is_owner g' = false).
+Proof.
+  intros I AO FS. cbn zeta. intros NE. destruct (step_f_owner x fo I AO FS) as [_ SS].
+  destruct SS as [A B|A B C|t T1 T2 A B C|T1 T2 T3 T4 T5 T6]; try congruence. auto.
+Qed.
+
+(* O enters a stored grant only by {set sub} of the current owner naming that user; a
+   re-subscription restores a previous grant *)
+Lemma step_grant x fo v w' g' d' : oinv_state sm x -> actor_ok (snd fo) -> fault_safe fo ->
+  let x' := fst (step_f dr nr sm x fo) in
+  smode (st x') v = Some (w', g', d') -> is_owner g' = true -> ~ had_given_O (smode (st x) v) ->
+  op_user (snd fo) = t_owner (st x) /\ is_set_op (snd fo) v.
+Proof.
+  intros I AO FS. cbn zeta. intros E OG NH. destruct (step_f_owner x fo I AO FS) as [_ SS].
+  destruct SS as [A B|A B C|t T1 T2 A B C|T1 T2 T3 [w [g [T4 [T4' _]]]] [w2 [g2 [T5 [_ T5']]]] T6].
+  - exfalso. apply NH. rewrite <- A. eexists _, _, _. eauto.
+  - exfalso. apply NH. destruct (N.eq_dec v (op_user (snd fo))) as [->|NE].
+    + eapply C; eauto.
+    + rewrite <- (A v NE). eexists _, _, _. eauto.
+  - destruct (N.eq_dec v t) as [->|NE].
+    + destruct (C _ _ _ E OG) as [H|H]; [contradiction|exact H].
+    + exfalso. apply NH. rewrite <- (A v NE). eexists _, _, _. eauto.
+  - exfalso. destruct (N.eq_dec v (op_user (snd fo))) as [->|N1].
+    + apply NH. eexists _, _, _. eauto.
+    + destruct (N.eq_dec v (t_owner (st x))) as [->|N2].
+      * rewrite T5 in E. inv E. congruence.
+      * apply NH. rewrite <- (T6 v N1 N2). eexists _, _, _. eauto.
+Qed.
+
+(* the owner's own requests never move ownership: the owner cannot give it up *)
+Lemma step_owner_self x fo : oinv_state sm x -> actor_ok (snd fo) -> fault_safe fo ->
+  op_user (snd fo) = t_owner (st x) ->
+  let x' := fst (step_f dr nr sm x fo) in
+  t_owner (st x') = t_owner (st x) /\
+  exists w g, smode (st x') (t_owner (st x)) = Some (w, g, false) /\ is_owner w = true /\ is_owner g = true.
+Proof.
+  intros I AO FS EA. cbn zeta. destruct (step_f_owner x fo I AO FS) as [I1 SS].
+  assert (t_owner (st (fst (step_f dr nr sm x fo))) = t_owner (st x)) as EO.
+  { destruct SS as [A B|A B C|t T1 T2 A B C|T1 T2 T3 T4 T5 T6]; auto. congruence. }
+  split; [exact EO|]. apply oinv_state_sinv in I1. destruct I1 as [_ _ _ _ P].
+  specialize (P (t_owner (st x))). rewrite EO in P.
+  destruct (smode _ (t_owner (st x))) as [[[w g] d]|]; cbn in P; [|congruence].
+  rewrite N.eqb_refl in P. destruct P as [-> [W G]]. eauto.
+Qed.
+
+(* the owner's unsubscribe is refused and changes nothing *)
+Lemma owner_leave_refused f x sid : oinv_state sm x -> sess_uid sm sid = t_owner (st x) ->
+  exists code, (400 <= code)%Z /\
+    step dr nr sm f x (OLeave sid true) = (mkState (st x) (ca x) 0, [(sid, Ctrl code [])]).
+Proof.
+  intros I EA. destruct x as [s cx n0]. unfold oinv_state in I. cbn [st ca] in *. unfold step. cbn [st ca].
+  destruct cx as [c|]; [destruct (attached c sid) eqn:AT|]; cbn [negb].
+  - assert (match alookup sid (c_sess c) with Some (a, _) => a | None => sess_uid sm sid end = c_owner c) as EA2.
+    { destruct I as [_ [CO _ _ _ SE]]. destruct (alookup sid (c_sess c)) as [[a b]|] eqn:ES; [|congruence].
+      destruct (SE sid a b (alookup_in _ _ _ ES)). congruence. }
+    rewrite EA2, leave_unsub_owner. cbn [h_st h_ca h_n h_out]. exists 403%Z. split; [lia|reflexivity].
+  - exists 409%Z. split; [lia|reflexivity].
+  - exists 409%Z. split; [lia|reflexivity].
+Qed.
 End StepOwner.
+
+(* ------------------------------------------------------------------ *)
+(* the two readings of "is the owner" used by the owner-only gates agree with the one owner *)
+Lemma sinv_eff_owner_iff s u : sinv s ->
+  ((exists w g, smode s u = Some (w, g, false) /\ is_owner (N.land w g) = true) <-> u = t_owner s).
+Proof.
+  intros [_ _ _ _ P]. specialize (P u). split.
+  - intros [w [g [E O]]]. rewrite E in P. cbn in P. rewrite is_owner_land in O. apply andb_true_iff in O.
+    destruct (N.eqb_spec u (t_owner s)); [assumption|]. destruct O. congruence.
+  - intros ->. destruct (smode s (t_owner s)) as [[[w g] d]|]; cbn in P; [|congruence].
+    rewrite N.eqb_refl in P. destruct P as [-> [W G]]. exists w, g. rewrite is_owner_land, W, G. auto.
+Qed.
+Lemma oinv_cached_owner_iff sm s c u : oinv sm s c -> (c_owner c = u <-> u = t_owner s).
+Proof. intros [_ [CO _ _ _ _]]. rewrite CO. split; congruence. Qed.
+
+(* stores left behind by the topic-creation code satisfy the stored part of the invariant *)
+Lemma sinv_new_topic auth anon usrs o w g : o <> 0 -> is_owner auth = false ->
+  (forall u acc, alookup u usrs = Some acc -> is_owner acc = false) -> is_owner w = true -> is_owner g = true ->
+  sinv (ad_sub_create (mkStore true 0 0 0 auth anon [] [] [] usrs) o w g).
+Proof.
+  intros O0 AU US W G. set (s0 := mkStore true 0 0 0 auth anon [] [] [] usrs).
+  assert (t_owner (ad_sub_create s0 o w g) = o) as EO by (rewrite owner_sub_create, is_owner_land, W, G; reflexivity).
+  destruct (sframe_sub_create s0 o w g) as [_ [_ [_ [F1 [_ [_ F2]]]]]].
+  constructor.
+  - congruence.
+  - now rewrite F1.
+  - now rewrite F2.
+  - apply users_sub_create. constructor.
+  - intros v. rewrite smode_sub_create, EO. destruct (N.eqb_spec v o) as [->|NE]; cbn.
+    + rewrite N.eqb_refl. auto.
+    + exact NE.
+Qed.
+Lemma sinv_add_row s u w g : sinv s -> u <> t_owner s -> is_owner w = false -> sinv (ad_sub_create s u w g).
+Proof.
+  intros [O0 AU US ND P] NO W.
+  assert (t_owner (ad_sub_create s u w g) = t_owner s) as EO by (rewrite owner_sub_create, is_owner_land, W; reflexivity).
+  destruct (sframe_sub_create s u w g) as [_ [_ [_ [F1 [_ [_ F2]]]]]].
+  constructor.
+  - congruence.
+  - now rewrite F1.
+  - now rewrite F2.
+  - now apply users_sub_create.
+  - intros v. rewrite smode_sub_create, EO. destruct (N.eqb_spec v u) as [->|NE]; [|apply P].
+    cbn. now rewrite (proj2 (N.eqb_neq _ _) NO).
+Qed.
